@@ -133,6 +133,16 @@ CHECKS["C03"] = dict(
          "with source-identifying tomograms are compared with the model.",
     design="5 C03", technique="Lean 4 proof (scatter correctness for all key sequences) + history correspondence")
 
+CHECKS["C14"] = dict(
+    text="Theorems (every template size, position incl. negative, scale): fragment origin + output centre = "
+         "pos/scale, so the template centre lands on the molecule position for odd AND even sizes; "
+         "grid-coincident poses reduce to an exact paste at pos-(n-1)/2; clipped source/destination slices "
+         "have equal length inside the volume and non-overlapping fragments are skipped; the summed volume is "
+         "independent of the order and partition of fragments; simulate_2d's temporary volume is tall enough "
+         "and every molecule is projected. scipy affine_transform and numpy slicing are parameters; real "
+         "simulations are compared with exact pastes / projections / loader round trips.",
+    design="5 C14", technique="Lean 4 proof over the translated index arithmetic + _prep_iterators correspondence")
+
 CHECKS["C10"] = dict(
     text="Theorems: for every number of threads and EVERY schedule of TemplateMaskCache.get (statement "
          "granularity; Backend keys compared by wrapped module, cache filled at construction) no thread "
